@@ -20,10 +20,10 @@ of the top-level layout and of every group of a multiplexer; a group is not stor
 result of the insertions made so far (`groupOf`: the registered children that are members of
 group `k`, inserted in registration order — this is exactly the state of `groups[k].signals`).
 
-Several multiplexors in one message: the flat case (no multiplexor is itself multiplexed) is
-modelled; a message in which a multiplexor would be NESTED into another one
-(`nestedRequested`) is answered `unsupported` before anything else is looked at, on both sides
-of stream `imp`.
+Several multiplexors in one message: a multiplexor that has an extended entry of its own is
+NESTED into the multiplexor the entry names.  The tree stays first order: a nested multiplexer
+is a `Child` with `isMux = true` in its parent and a `MuxNode` of the same name in
+`ITree.nested` (names are unique within an accepted message).
 -/
 import Acme.Core.Layout
 import Acme.Core.Conv
@@ -101,10 +101,15 @@ structure Child where
   rel : Int
   size : Int
   gids : List Int
+  /-- the child is itself a multiplexer (its body is the node of that name in `ITree.nested`);
+      `size` is then its total size (selector + one group) -/
+  isMux : Bool := false
   deriving Repr, DecidableEq, Inhabited
 
 structure MuxNode where
   name : String
+  /-- ABSOLUTE start bit (`GetStartBit()`); for a nested multiplexer the relative start is in
+      the `Child` entry of its parent -/
   start : Int
   /-- `GetGroupCountSize()` -/
   selW : Int
@@ -125,6 +130,9 @@ structure ITree where
   sizeByte : Int
   bigEndian : Bool
   top : List Item
+  /-- the multiplexers that are children of other multiplexers (any depth), in the order in
+      which the importer builds them; a parent refers to them by name (`Child.isMux`) -/
+  nested : List MuxNode := []
   deriving Repr, DecidableEq, Inhabited
 
 def Item.name : Item → String
@@ -299,7 +307,7 @@ def addKids (exts : List DExt) (gc gs base : Int) : List Child → List DSig →
     match kidIds exts gc k with
     | .error e => .error e
     | .ok ids =>
-      match muxInsert gc gs cs ⟨k.name, sigPos k - base, k.size, ids⟩ with
+      match muxInsert gc gs cs ⟨k.name, sigPos k - base, k.size, ids, k.isMultiplexor⟩ with
       | .error e => .error e
       | .ok cs' => addKids exts gc gs base cs' r
 
@@ -381,21 +389,6 @@ def muxIdx (muxes : List DSig) (name : String) : Option Nat :=
   let idxs := (List.range muxes.length).filter (fun i => (muxes[i]?.map (·.name)) == some name)
   idxs.getLast?
 
-/-- a multiplexor would be nested into another one: outside the model -/
-def nestedRequested (m : DMsg) : Bool :=
-  let muxes := (sortSigs m.sigs).filter (·.isMultiplexor)
-  decide (muxes.length ≥ 2) &&
-  (List.range muxes.length).any (fun j =>
-    match muxes[j]? with
-    | none => false
-    | some mx =>
-      match findExt m.exts mx.name with
-      | none => false
-      | some e =>
-        match muxIdx muxes e.muxor with
-        | none => false
-        | some i => decide (i < j))
-
 def appendAt (groups : List (List DSig)) (i : Nat) (s : DSig) : List (List DSig) :=
   groups.modify i (fun g => g ++ [s])
 
@@ -419,50 +412,63 @@ def splitMany (cap : Int) (exts : List DExt) (muxes : List DSig) :
           | .error e => .error e
           | .ok top' => splitMany cap exts muxes r top' groups
 
+/-- the built multiplexers waiting to be handed to their parent: `muxedSigGroups[i] =
+    append(muxedSigGroups[i], …)` is kept as a list of (parent index, signal) pairs -/
+def pendingFor (extra : List (Nat × DSig)) (j : Nat) : List DSig :=
+  (extra.filter (fun p => p.1 == j)).map (·.2)
+
+/-- a built multiplexer as it is handed to `importMuxSignal` of its parent: the multiplexor
+    signal of the file with the TOTAL size of the multiplexer (`sig.GetSize()`) -/
+def nestedKid (mx : DSig) (n : MuxNode) : DSig := { mx with size := (n.groupSize + n.selW).toNat }
+
 /-- second loop: the multiplexors from the last to the first; the work list holds every
-    multiplexor with the signals collected for it and its index `j` -/
+    multiplexor with the signals collected for it and its index `j`.  A multiplexor with an
+    extended entry is NESTED into the multiplexor the entry names (which must precede it): it is
+    built first, recorded in `nested`, and handed to its parent as one more multiplexed signal. -/
 def placeMuxes (cap : Int) (exts : List DExt) (muxes : List DSig) :
-    List ((DSig × List DSig) × Nat) → List Item → Except ImpErr (List Item)
-  | [], top => .ok top
-  | ((mx, kids), j) :: rest, top =>
-    match importMux exts mx kids with
+    List ((DSig × List DSig) × Nat) → List Item → List MuxNode → List (Nat × DSig) →
+    Except ImpErr (List Item × List MuxNode)
+  | [], top, nested, _ => .ok (top, nested)
+  | ((mx, kids), j) :: rest, top, nested, extra =>
+    match importMux exts mx (kids ++ pendingFor extra j) with
     | .error e => .error e
     | .ok n =>
       match findExt exts mx.name with
       | none =>
         match insertTop cap top (.mux n) with
         | .error e => .error e
-        | .ok top' => placeMuxes cap exts muxes rest top'
+        | .ok top' => placeMuxes cap exts muxes rest top' nested extra
       | some e =>
         match muxIdx muxes e.muxor with
         | none => .error .nameNotFound
-        | some i => if i ≥ j then .error .precede else .error .unsupported
+        | some i =>
+          if i ≥ j then .error .precede
+          else placeMuxes cap exts muxes rest top (nested ++ [n]) (extra ++ [(i, nestedKid mx n)])
 
-def importMany (cap : Int) (exts : List DExt) (muxes sorted : List DSig) : Except ImpErr (List Item) :=
+def importMany (cap : Int) (exts : List DExt) (muxes sorted : List DSig) :
+    Except ImpErr (List Item × List MuxNode) :=
   match splitMany cap exts muxes sorted [] (List.replicate muxes.length []) with
   | .error e => .error e
-  | .ok (top, groups) => placeMuxes cap exts muxes ((muxes.zip groups).zipIdx.reverse) top
+  | .ok (top, groups) => placeMuxes cap exts muxes ((muxes.zip groups).zipIdx.reverse) top [] []
 
 /-- `importMessage` -/
 def importMsg (m : DMsg) : Except ImpErr ITree :=
-  if nestedRequested m then .error .unsupported
-  else
-    let sorted := sortSigs m.sigs
-    let cap : Int := 8 * (m.size : Int)
-    match firstLoop cap (headBE sorted) [] sorted with
-    | .error e => .error e
-    | .ok () =>
-      if m.size > 8 then .error .msgTooBig
-      else
-        let muxes := sorted.filter (·.isMultiplexor)
-        let res :=
-          match muxes with
-          | [] => importPlain cap [] sorted
-          | [mx] => importOne cap m.exts mx sorted
-          | _ => importMany cap m.exts muxes sorted
-        match res with
-        | .error e => .error e
-        | .ok top => .ok ⟨m.id, m.size, headBE sorted, top⟩
+  let sorted := sortSigs m.sigs
+  let cap : Int := 8 * (m.size : Int)
+  match firstLoop cap (headBE sorted) [] sorted with
+  | .error e => .error e
+  | .ok () =>
+    if m.size > 8 then .error .msgTooBig
+    else
+      let muxes := sorted.filter (·.isMultiplexor)
+      let res : Except ImpErr (List Item × List MuxNode) :=
+        match muxes with
+        | [] => (importPlain cap [] sorted).map (fun top => (top, []))
+        | [mx] => (importOne cap m.exts mx sorted).map (fun top => (top, []))
+        | _ => importMany cap m.exts muxes sorted
+      match res with
+      | .error e => .error e
+      | .ok (top, nested) => .ok ⟨m.id, m.size, headBE sorted, top, nested⟩
 
 /-! ## building a message through the API (used by `imp export`) -/
 
